@@ -352,6 +352,16 @@ main(int argc, char** argv)
       }
       printf("] size=%zu", zix_btree_size(tree));
       if (!zix_btree_iter_equals(zix_btree_end(tree), zix_btree_end_iter)) printf(" SPEC-FAIL:end-iterators-differ");
+      // zix_btree_iter_next (the copying form of increment) walks the same positions
+      {
+        ZixBTreeIter a = zix_btree_begin(tree), b = zix_btree_begin(tree);
+        for (size_t k = 0; !zix_btree_iter_is_end(a) && k <= zix_btree_size(tree) + 2; ++k) {
+          zix_btree_iter_increment(&a);
+          b = zix_btree_iter_next(b);
+          if (!zix_btree_iter_equals(a, b)) { printf(" SPEC-FAIL:iter_next-differs-from-increment"); break; }
+        }
+        if (!zix_btree_iter_is_end(b)) printf(" SPEC-FAIL:iter_next-does-not-reach-end");
+      }
       va.log_len = 0;
     } else if (!strcmp(tok[0], "clear")) {
       n_destroyed = 0;
